@@ -6,7 +6,7 @@ SPEC = {
     "bins": ["c01"],
     "model_targets": ["Pat/C01Check.vo"],
     "proof_targets": ["Pat/MatcherProofs.vo", "Pat/ModifiersProofs.vo", "Pat/MatchListProofs.vo",
-                      "Pat/C01CheckProofs.vo", "Pat/Base64Proofs.vo", "Pat/ChainProofs.vo", "Pat/PipelineProofs.vo", "Pat/AtomsProofs.vo", "Pat/PipelineB64Proofs.vo", "Pat/ChainRunProofs.vo"],
+                      "Pat/C01CheckProofs.vo", "Pat/Base64Proofs.vo", "Pat/ChainProofs.vo", "Pat/PipelineProofs.vo", "Pat/AtomsProofs.vo", "Pat/PipelineB64Proofs.vo", "Pat/ChainRunProofs.vo", "Pat/ChainCompleteProofs.vo"],
     "assumptions": [
         "the specification of occurrences (Pat/Sem.v, Pat/Modifiers.v) is written from text_patterns.md, hex_patterns.md, regexps.md, differences.md; "
         "where they are silent it accepts the implementation: the neighbouring character of a wide string for fullword, which of several genuine "
@@ -15,10 +15,15 @@ SPEC = {
         "reference under atoms_ok, which K stream (d) evaluates on the REAL sub-patterns and atoms of the compiled rules (hook Rules::verif_c01_dump); "
         "the search automaton is assumed to report exactly the atom occurrences (hits_exact: any order); for Base64* the link model -> specification "
         "is stated, not proved (the 9-entry table is)",
-        "chains of literal pieces at run time (handle_sub_pattern_match, within_valid_distance, verify_chain_of_matches with chain_length pruning and "
-        "the greedy reset walk) are modelled (Pat/ChainRun.v) and compared exactly on the REAL pieces and atoms in K stream (e); the atom hits are "
-        "assumed to arrive ordered by start offset (vector kernel) or by end offset (automaton), both orders are accepted; chain_sound is not proved yet",
-        "the Thompson/PikeVM/FastVM engines, chains with regexp pieces, Teddy and Aho-Corasick are not modelled: they are tied to the specification only by the "
+        "chains at run time: handle_sub_pattern_match, within_valid_distance, verify_chain_of_matches (chain_length pruning, greedy reset walk) are "
+        "modelled over EVENTS = verified piece matches (Pat/ChainRun.v) and proved sound for every event list and complete on starts for every event "
+        "list in which each event starts before the end of every later one (ChainRunProofs, ChainCompleteProofs); K stream (e) feeds the model the REAL "
+        "events, atom hits and kernel recorded by the hooks (verif_c01_trace_*) and checks: the hits are exactly the atom occurrences in an order the "
+        "kernel that ran produces (start order for the vector kernel, end order for the automaton), the events of literal pieces are what "
+        "handle_atom_match derives from the hits, the events of regexp pieces are matches of the piece by the reference matcher (every start "
+        "covered), the events satisfy the order hypothesis, and the bookkeeping reproduces the reported list exactly. How verify_regexp picks the "
+        "end of a regexp piece (one per atom hit) is observed, not modelled: the abstract reading 'one end per start' is refuted for completeness",
+        "the Thompson/PikeVM/FastVM engines, Teddy and Aho-Corasick are not modelled: they are tied to the specification only by the "
         "differential streams (every reported match checked by genuine_b, every required start looked for)",
         "Vec growth policy and slice::binary_search_by are trusted std behaviour (modelled literally; search_std_eq proves the abstraction used)",
         "completeness is demanded for starts whose genuine lengths are all within re::DEFAULT_SCAN_LIMIT and while the pattern has fewer than "
@@ -42,10 +47,11 @@ RULE = ("stream (a), ~20%: random operation sequences on the real MatchList / Pa
         "mod 16, masked literals of 15..66 bytes with one-byte near-misses, and one-bit perturbations: for a text pattern of each modifier family "
         "(plain, nocase, nocase wide, fullword, xor, base64, wide) or a flat hex pattern of 5..12 bytes over letters, digits, punctuation and control "
         "bytes, buffers made of the genuine instance with bit 5, bit 7 and a random bit of every byte flipped in turn, inside and outside the atom). "
-        "stream (e), ~12%: chains -- hex patterns and /s regexps (uniformly greedy or lazy) of 2..5 literal pieces joined by unbounded jumps and jumps "
-        "over the chaining threshold, buffers with the pieces in and out of order, repeated heads, middles and tails, near-misses and now and then "
-        ">200 bytes of filler; the real pieces (flags, links, gaps) must equal Chain.split_at_large_gaps, atoms_ok must hold for every piece, and the "
-        "run-time chain model must reproduce the reported list exactly. stream (f), ~12%: rules with 2..4 related patterns (same text with different "
+        "stream (e), ~12%: chains -- hex patterns and /s regexps (uniformly greedy or lazy; also nocase, wide, ascii wide, fullword) of 2..5 pieces, "
+        "plain literals or small expressions (classes, nibble masks, short jumps, x+, y?, alternatives), joined by unbounded jumps and jumps over the "
+        "chaining threshold, buffers with instances of the pieces in and out of order, repeated heads, middles and tails, near-misses and now and "
+        "then >200 bytes of filler; the real pieces (flags, links, gaps) must equal Chain.split_at_large_gaps, atoms_ok must hold for every literal "
+        "piece, the recorded hits/events must be what the model says (see assumptions) and the bookkeeping model must reproduce the reported list. stream (f), ~12%: rules with 2..4 related patterns (same text with different "
         "custom base64 alphabets, same alphabet with different text, same text with other modifiers, duplicates) scanned by ONE scanner over one or "
         "two consecutive buffers: every (buffer, pattern) is a differential case. stream (d), ~15%: text patterns (every modifier family) and flat hex "
         "patterns with the real sub-patterns and atoms dumped from the compiled rules: the dump must equal the model of c_literal_pattern, atoms_ok "
@@ -58,7 +64,7 @@ SYMPTOMS = [(1, "panic-or-bytes"), (2, "unsound"), (4, "order"), (8, "missed"), 
             (512, "hits-not-the-atom-occurrences-in-kernel-order"),
             (1024, "chain:pieces-differ-from-split-model"), (2048, "chain:atoms_ok-false-on-real-atoms"), (4096, "chain:hits-not-the-atom-occurrences-in-kernel-order"),
             (8192, "chain:literal-piece-matches-differ-from-model"), (16384, "chain:regexp-piece-matches-not-the-reference's"), (32768, "chain:bookkeeping-model-differs"),
-            (65536, "byte-gap-reading-of-wide-chain")]
+            (65536, "chain:events-not-in-an-order-a-kernel-produces"), (131072, "byte-gap-reading-of-wide-chain")]
 
 # root-cause hints computed by the harness from the pattern's AST, most specific first (the defects behind
 # them are repaired: a case classified by one of them is a regression and is reported as a VIOLATION)
@@ -90,6 +96,16 @@ def classify(case):
     # ... or, for a greedy regexp (the LONGEST end is kept), in front of any gap
     if "chain-piece-variable-length-greedy" in tags and sym == "missed":
         return "C01:scan:chain-piece-variable-length-greedy"
+    # known finding: verify_base64 drops a '=' found at an even offset anywhere in a base64wide window (not only
+    # trailing padding), so a window with a '=' in the middle can decode: there is such a '=' close to a reported match
+    if "base64wide" in tags and sym == "unsound":
+        data = bytes.fromhex(case.get("data_hex", ""))
+        for s_, l_ in rep:
+            s0, l0 = int(s_), int(l_)
+            lo = max(0, s0 - 8)
+            window = data[lo:s0 + l0 + 8]
+            if any(window[i] == 0x3d and (lo + i - s0) % 2 == 0 and (lo + i) < s0 + l0 + 6 and data[lo + i + 2:lo + i + 3] not in (b"", b"=") for i in range(len(window))):
+                return "C01:scan:base64wide-pad-inside-window"
     for t in TAG_ORDER[:-1]:
         if t in tags:
             return f"C01:scan:{t}"
@@ -213,10 +229,10 @@ MANIFEST = {
                    "operation sequences, and the real Scanner's output for generated (pattern, buffer) pairs is checked by the proven checker."),
     "level_note": ("For the literal family (Literal, LiteralWithMask, Xor, anchored) the scan pipeline is modelled and proved equal to the reference "
                    "under atoms_ok, evaluated on the real atoms (pipeline_literal_family, compile_text_spec); for Base64* the pipeline model is compared "
-                   "exactly but its link to the specification is only stated. Chains of literal pieces at run time are modelled (Pat/ChainRun.v) and compared "
-                   "exactly on the real pieces and atoms, without a proof that links the model to the specification yet. Regexp engines (FastVM/PikeVM), "
-                   "Teddy/Aho-Corasick and chains with regexp pieces are NOT modelled; they are covered only by the differential streams against the "
-                   "proven reference. "
+                   "exactly but its link to the specification is only stated. The chain bookkeeping at run time is modelled over verified piece matches and proved sound (every reported match is a "
+                   "match of the split pattern, ascii form) and complete on starts for kernel-ordered events; it is compared exactly on the real, "
+                   "recorded piece matches. The wide form and the one-end-per-start choice of regexp pieces are REFUTED (known findings). Regexp engines "
+                   "(FastVM/PikeVM), Teddy/Aho-Corasick are NOT modelled; they are covered only by the differential streams against the proven reference. "
                    "Which of several genuine lengths a regexp reports, wide-fullword neighbours and undecodable base64 windows are accepted as "
                    "undocumented. Buffers are <= 300 bytes (DEFAULT_SCAN_LIMIT is stated in the spec but never reached); repetitions nested inside "
                    "repetitions are bounded in generated regexps. Trusted: Coq kernel, gen_patconsts.py, the harness and its YARA printer, the hook."),
